@@ -74,6 +74,10 @@ def memoryAllocationNew (U : Nat) (l : Layout) : NewOutcome :=
 def memoryAllocationDrop (l : Layout) : Option (Nat × Nat) :=
   if l.size ≠ 0 then some (l.size, l.align) else none
 
+/-- `MemoryAllocation::memory()` (memory.rs:54-60): `Memory { start: self.start, end: self.start.wrapping_add(self.layout.size()) }`
+    — `wrapping_add` on a `*mut u8` is address arithmetic modulo `2^U` -/
+def memoryOf (U start : Nat) (l : Layout) : Bump.Chunk := ⟨start, (start + l.size) % 2 ^ U⟩
+
 /-- the bump request that consumes an `array_layout::<T>(n)` part: `allocate_slice_*::<T>(n)` -/
 def reqOf (esize alog n : Nat) : Bump.Req := ⟨esize, 2 ^ alog, n⟩
 
